@@ -1,4 +1,567 @@
-(* Proofs about the coalescent models over R (NumR). *)
-From Coq Require Import QArith ZArith Reals Qreals List Lia Lra Permutation Sorted.
+(* Proofs about the coalescent models over R (instance NumR of model/M_coalescent.v).
+
+   Part 1: the event machinery.  For ANY list s that is a permutation of the events and sorted by
+   time (i.e. for any tie-breaking of the sort) the walk's running lineage count / grid count /
+   coalescent count on every interval of positive length equals the COUNTING definition
+   (events at or before the start of the interval); empty intervals contribute 0.
+   Part 2: each model's log_prob equals the Kingman density written with counting only.
+   Part 3: closed-form piece integrals (Coquelicot is_RInt).
+   Part 4: consequences: order invariance, all pieces equal = constant model, scaling law. *)
+From Coq Require Import QArith ZArith Reals Qreals List Lia Lra Permutation Sorted Bool Arith.
 Import ListNotations.
 From TT Require Import Num NumR Tree M_coalescent.
+Local Open Scope R_scope.
+
+Notation ev := (event R).
+Definition tle (a b : ev) : Prop := etime a <= etime b.
+
+(* the exact keys order the events as their real times do *)
+Definition keys_ok (evs : list ev) : Prop :=
+  forall a b, In a evs -> In b evs -> (Qle_bool (ekey a) (ekey b) = true <-> etime a <= etime b).
+
+Fixpoint Rsum (l : list R) : R := match l with [] => 0 | x :: r => x + Rsum r end.
+Lemma nsum_Rsum l : nsum NumR l = Rsum l.
+Proof. induction l as [|x l IH]; simpl; [reflexivity|]. rewrite IH; reflexivity. Qed.
+Lemma Rsum_app a b : Rsum (a ++ b) = Rsum a + Rsum b.
+Proof. induction a; simpl; lra. Qed.
+Lemma Rsum_map_ext_Forall {A} (f g : A -> R) l :
+  Forall (fun x => f x = g x) l -> Rsum (map f l) = Rsum (map g l).
+Proof. induction 1; simpl; congruence. Qed.
+Lemma Rsum_perm l l' : Permutation l l' -> Rsum l = Rsum l'.
+Proof. induction 1; simpl; lra. Qed.
+
+(* ------------------------------------------------------------------ sorting *)
+Lemma insert_perm (e : ev) l : Permutation (insert_ev e l) (e :: l).
+Proof.
+  induction l as [|x r IH]; simpl; [reflexivity|].
+  destruct (Qle_bool (ekey e) (ekey x)); [reflexivity|].
+  rewrite IH. apply perm_swap.
+Qed.
+Lemma sort_perm (l : list ev) : Permutation (sort_ev l) l.
+Proof.
+  induction l as [|e r IH]; simpl; [reflexivity|]. rewrite insert_perm. constructor; exact IH.
+Qed.
+
+Lemma insert_sorted (e : ev) l :
+  (forall x, In x l -> (Qle_bool (ekey e) (ekey x) = true <-> tle e x) /\ (tle e x \/ tle x e)) ->
+  StronglySorted tle l -> StronglySorted tle (insert_ev e l).
+Proof.
+  intros H S. induction S as [|x r S IH F]; simpl.
+  - constructor; constructor.
+  - destruct (Qle_bool (ekey e) (ekey x)) eqn:E.
+    + assert (tle e x) by (apply (H x); [left; reflexivity | exact E]).
+      constructor; [constructor; assumption|]. constructor; [assumption|].
+      rewrite Forall_forall in *. intros y Hy. specialize (F y Hy). unfold tle in *. lra.
+    + assert (tle x e).
+      { destruct (H x (or_introl eq_refl)) as [H1 [H2|H2]]; [|exact H2].
+        apply H1 in H2. congruence. }
+      constructor.
+      * apply IH. intros y Hy. apply H. right; exact Hy.
+      * rewrite Forall_forall in *. intros y Hy.
+        apply (Permutation_in _ (insert_perm e r)) in Hy. destruct Hy as [<-|Hy]; auto.
+Qed.
+
+Lemma sort_sorted (l : list ev) : keys_ok l -> StronglySorted tle (sort_ev l).
+Proof.
+  induction l as [|e r IH]; intros K; simpl; [constructor|].
+  apply insert_sorted.
+  - intros x Hx. apply (Permutation_in _ (sort_perm r)) in Hx. split.
+    + apply K; [left; reflexivity | right; exact Hx].
+    + unfold tle. lra.
+  - apply IH. intros a b Ha Hb. apply K; right; assumption.
+Qed.
+
+Lemma keys_ok_perm l l' : Permutation l l' -> keys_ok l -> keys_ok l'.
+Proof.
+  intros P K a b Ha Hb. apply K; eapply Permutation_in; try eassumption; symmetry; assumption.
+Qed.
+
+Lemma key_eq_time evs a b : keys_ok evs -> In a evs -> In b evs ->
+  (Qeq_bool (ekey a) (ekey b) = true <-> etime a = etime b).
+Proof.
+  intros K Ha Hb. rewrite Qeq_bool_iff. split.
+  - intros E. apply Rle_antisym.
+    + apply (K a b Ha Hb). apply Qle_bool_iff. rewrite E. apply Qle_refl.
+    + apply (K b a Hb Ha). apply Qle_bool_iff. rewrite E. apply Qle_refl.
+  - intros E. apply Qle_antisym; apply Qle_bool_iff.
+    + apply (K a b Ha Hb). lra.
+    + apply (K b a Hb Ha). lra.
+Qed.
+
+(* two sorted lists of reals with the same elements (with multiplicity) are equal: the sequence of
+   event TIMES does not depend on how ties are broken *)
+Lemma sorted_perm_eq (l1 l2 : list R) :
+  StronglySorted Rle l1 -> StronglySorted Rle l2 -> Permutation l1 l2 -> l1 = l2.
+Proof.
+  revert l2. induction l1 as [|a l1 IH]; intros l2 S1 S2 P.
+  - apply Permutation_nil in P. congruence.
+  - destruct l2 as [|b l2]; [symmetry in P; apply Permutation_nil in P; discriminate|].
+    inversion S1 as [|? ? S1' F1]; inversion S2 as [|? ? S2' F2]; subst.
+    rewrite Forall_forall in F1, F2.
+    assert (a = b).
+    { assert (Hb : In b (a :: l1)) by (eapply Permutation_in; [symmetry; exact P | left; reflexivity]).
+      assert (Ha : In a (b :: l2)) by (eapply Permutation_in; [exact P | left; reflexivity]).
+      destruct Hb as [Hb|Hb]; [congruence|]. destruct Ha as [Ha|Ha]; [congruence|].
+      apply Rle_antisym; auto. }
+    subst b. f_equal. apply IH; auto. eapply Permutation_cons_inv; exact P.
+Qed.
+
+Lemma sorted_map_time (s : list ev) : StronglySorted tle s -> StronglySorted Rle (map etime s).
+Proof.
+  induction 1 as [|x r S IH F]; simpl; constructor; auto.
+  rewrite Forall_forall in *. intros y Hy. apply in_map_iff in Hy. destruct Hy as [z [<- Hz]].
+  apply F; exact Hz.
+Qed.
+
+(* ------------------------------------------------------------------ counting *)
+Fixpoint sumZ (w : kind -> Z) (l : list ev) : Z :=
+  match l with [] => 0%Z | e :: r => (w (ekind e) + sumZ w r)%Z end.
+Fixpoint sumN (w : kind -> nat) (l : list ev) : nat :=
+  match l with [] => 0%nat | e :: r => (w (ekind e) + sumN w r)%nat end.
+
+Section Cnt.
+Variable P : R -> Prop.
+Variable Pdec : forall x, {P x} + {~ P x}.
+Fixpoint cntZ (w : kind -> Z) (l : list ev) : Z :=
+  match l with [] => 0%Z | e :: r => ((if Pdec (etime e) then w (ekind e) else 0) + cntZ w r)%Z end.
+Fixpoint cntN (w : kind -> nat) (l : list ev) : nat :=
+  match l with [] => 0%nat | e :: r => ((if Pdec (etime e) then w (ekind e) else 0) + cntN w r)%nat end.
+
+Lemma cntZ_perm w l l' : Permutation l l' -> cntZ w l = cntZ w l'.
+Proof. induction 1; simpl; lia. Qed.
+Lemma cntN_perm w l l' : Permutation l l' -> cntN w l = cntN w l'.
+Proof. induction 1; simpl; lia. Qed.
+Lemma cntZ_app w a b : cntZ w (a ++ b) = (cntZ w a + cntZ w b)%Z.
+Proof. induction a; simpl; lia. Qed.
+Lemma cntN_app w a b : cntN w (a ++ b) = (cntN w a + cntN w b)%nat.
+Proof. induction a; simpl; lia. Qed.
+Lemma cntZ_all w l : (forall x, In x l -> w (ekind x) <> 0%Z -> P (etime x)) -> cntZ w l = sumZ w l.
+Proof.
+  induction l as [|e r IH]; intros H; simpl; [reflexivity|].
+  rewrite IH by (intros; apply H; [right|]; assumption).
+  destruct (Pdec (etime e)); [reflexivity|].
+  destruct (Z.eq_dec (w (ekind e)) 0) as [E|E]; [lia|]. exfalso. apply n, H; [left; reflexivity | exact E].
+Qed.
+Lemma cntN_all w l : (forall x, In x l -> w (ekind x) <> 0%nat -> P (etime x)) -> cntN w l = sumN w l.
+Proof.
+  induction l as [|e r IH]; intros H; simpl; [reflexivity|].
+  rewrite IH by (intros; apply H; [right|]; assumption).
+  destruct (Pdec (etime e)); [reflexivity|].
+  destruct (Nat.eq_dec (w (ekind e)) 0) as [E|E]; [lia|]. exfalso. apply n, H; [left; reflexivity | exact E].
+Qed.
+Lemma cntZ_none w l : (forall x, In x l -> w (ekind x) <> 0%Z -> ~ P (etime x)) -> cntZ w l = 0%Z.
+Proof.
+  induction l as [|e r IH]; intros H; simpl; [reflexivity|].
+  rewrite IH by (intros; apply H; [right|]; assumption).
+  destruct (Pdec (etime e)); [|reflexivity].
+  destruct (Z.eq_dec (w (ekind e)) 0) as [E|E]; [lia|]. exfalso. apply (H e); [left; reflexivity | exact E | exact p].
+Qed.
+Lemma cntN_none w l : (forall x, In x l -> w (ekind x) <> 0%nat -> ~ P (etime x)) -> cntN w l = 0%nat.
+Proof.
+  induction l as [|e r IH]; intros H; simpl; [reflexivity|].
+  rewrite IH by (intros; apply H; [right|]; assumption).
+  destruct (Pdec (etime e)); [|reflexivity].
+  destruct (Nat.eq_dec (w (ekind e)) 0) as [E|E]; [lia|]. exfalso. apply (H e); [left; reflexivity | exact E | exact p].
+Qed.
+Lemma cntN_le_sum w l : (cntN w l <= sumN w l)%nat.
+Proof. induction l as [|e r IH]; simpl; [lia|]. destruct (Pdec (etime e)); lia. Qed.
+End Cnt.
+
+Lemma sumZ_app w a b : sumZ w (a ++ b) = (sumZ w a + sumZ w b)%Z.
+Proof. induction a; simpl; lia. Qed.
+Lemma sumN_app w a b : sumN w (a ++ b) = (sumN w a + sumN w b)%nat.
+Proof. induction a; simpl; lia. Qed.
+Lemma sumN_perm w l l' : Permutation l l' -> sumN w l = sumN w l'.
+Proof. induction 1; simpl; lia. Qed.
+
+(* THE COUNTING DEFINITIONS.  k(t): tips sampled at or before t minus coalescences at or before t;
+   the number of grid points / coalescences at or before t; the number of grid points strictly
+   before t. *)
+Definition kcount (evs : list ev) (t : R) : Z := cntZ (fun x => x <= t) (fun x => Rle_dec x t) delta evs.
+Definition gcount (evs : list ev) (t : R) : nat := cntN (fun x => x <= t) (fun x => Rle_dec x t) isgrid evs.
+Definition ccount (evs : list ev) (t : R) : nat := cntN (fun x => x <= t) (fun x => Rle_dec x t) iscoal evs.
+Definition glt (evs : list ev) (t : R) : nat := cntN (fun x => x < t) (fun x => Rlt_dec x t) isgrid evs.
+
+(* no grid point lies exactly on a coalescent time (the value of a step function at its jump is a
+   convention; for continuous N the hypothesis is only a proof convenience) *)
+Definition no_tie (evs : list ev) : Prop :=
+  forall c g, In c evs -> In g evs -> ekind c = Coal -> ekind g = Grid -> etime c <> etime g.
+
+(* ------------------------------------------------------------------ the walk *)
+Definition iv_ok (s : list ev) (iv : ival R) : Prop :=
+  i_a iv <= i_b iv /\ (i_zero iv = true <-> i_a iv = i_b iv) /\
+  (i_a iv < i_b iv -> i_k iv = kcount s (i_a iv) /\ i_g iv = gcount s (i_a iv) /\ i_c iv = ccount s (i_a iv)) /\
+  (i_g iv <= sumN isgrid s)%nat /\
+  (no_tie s -> i_end iv = Coal -> i_g iv = glt s (i_b iv)).
+
+Lemma isgrid_nz k : isgrid k <> 0%nat -> k = Grid.
+Proof. destruct k; simpl; congruence. Qed.
+
+Lemma walk_ok : forall l pre p k g c,
+  keys_ok (pre ++ l) -> In p (pre ++ l) -> StronglySorted tle l ->
+  (forall x, In x pre -> etime x <= etime p) -> (forall x, In x l -> etime p <= etime x) ->
+  k = sumZ delta pre -> g = sumN isgrid pre -> c = sumN iscoal pre ->
+  Forall (iv_ok (pre ++ l)) (walk (ekey p) (etime p) k g c l).
+Proof.
+  induction l as [|e r IH]; intros pre p k g c K Hp S Hpre Hl Hk Hg Hc; simpl; [constructor|].
+  inversion S as [|? ? S' F]; subst. rewrite Forall_forall in F.
+  assert (Hpe : etime p <= etime e) by (apply Hl; left; reflexivity).
+  assert (Hin : In e (pre ++ e :: r)) by (apply in_or_app; right; left; reflexivity).
+  constructor.
+  - unfold iv_ok; cbn [i_a i_b i_zero i_k i_g i_c i_end]. split; [exact Hpe|]. split.
+    { apply (key_eq_time _ p e K Hp Hin). }
+    split; [|split].
+    + intros Hlt.
+      assert (A : forall x, In x pre -> etime x <= etime p) by exact Hpre.
+      assert (B : forall x, In x (e :: r) -> ~ etime x <= etime p).
+      { intros x [<-|Hx]; [lra|]. specialize (F x Hx). unfold tle in F. lra. }
+      unfold kcount, gcount, ccount. rewrite cntZ_app, !cntN_app.
+      rewrite (cntZ_all _ _ delta pre) by (intros; apply A; assumption).
+      rewrite (cntZ_none _ _ delta (e :: r)) by (intros; apply B; assumption).
+      rewrite !(cntN_all _ _ _ pre) by (intros; apply A; assumption).
+      rewrite !(cntN_none _ _ _ (e :: r)) by (intros; apply B; assumption).
+      repeat split; lia.
+    + rewrite sumN_app. lia.
+    + intros NT Ec. unfold glt. rewrite cntN_app.
+      rewrite (cntN_all _ _ isgrid pre).
+      2:{ intros x Hx Hw. apply isgrid_nz in Hw.
+          assert (etime e <> etime x).
+          { apply NT; auto. apply in_or_app; left; exact Hx. }
+          specialize (Hpre x Hx). lra. }
+      rewrite (cntN_none _ _ isgrid (e :: r)).
+      2:{ intros x Hx Hw. apply isgrid_nz in Hw. destruct Hx as [<-|Hx]; [congruence|].
+          specialize (F x Hx). unfold tle in F. lra. }
+      lia.
+  - replace (pre ++ e :: r) with ((pre ++ [e]) ++ r) in * by (rewrite <- app_assoc; reflexivity).
+    apply IH.
+    + exact K.
+    + exact Hin.
+    + exact S'.
+    + intros x Hx. apply in_app_or in Hx. destruct Hx as [Hx|[<-|[]]]; [|lra].
+      specialize (Hpre x Hx). lra.
+    + intros x Hx. apply F; exact Hx.
+    + rewrite sumZ_app; simpl. lia.
+    + rewrite sumN_app; simpl. lia.
+    + rewrite sumN_app; simpl. lia.
+Qed.
+
+Lemma intervals_ok (s : list ev) : keys_ok s -> StronglySorted tle s -> Forall (iv_ok s) (intervals s).
+Proof.
+  intros K S. destruct s as [|e r]; [constructor|]. unfold intervals.
+  apply (walk_ok (e :: r) [] e 0%Z 0%nat 0%nat); auto.
+  - left; reflexivity.
+  - intros x [].
+  - intros x [<-|Hx]; [lra|]. inversion S as [|? ? S' F]; subst. rewrite Forall_forall in F.
+    apply F; exact Hx.
+Qed.
+
+(* sums over the walk depend on the end points / end kinds only *)
+Fixpoint pair_sum (F : R -> R -> R) (p : R) (ts : list R) : R :=
+  match ts with [] => 0 | t :: r => F p t + pair_sum F t r end.
+(* sum of F over the inter-event intervals of a time sequence *)
+Definition isum (F : R -> R -> R) (ts : list R) : R :=
+  match ts with [] => 0 | t :: r => pair_sum F t r end.
+
+Lemma walk_pair_sum F pk pt k g c (l : list ev) :
+  Rsum (map (fun iv => F (i_a iv) (i_b iv)) (walk pk pt k g c l)) = pair_sum F pt (map etime l).
+Proof.
+  revert pk pt k g c. induction l as [|e r IH]; intros; simpl; [reflexivity|]. rewrite IH. reflexivity.
+Qed.
+
+Definition coal_sum (F : R -> R) (l : list ev) : R :=
+  Rsum (map (fun e => match ekind e with Coal => F (etime e) | _ => 0 end) l).
+Lemma coal_sum_perm F l l' : Permutation l l' -> coal_sum F l = coal_sum F l'.
+Proof. intros P. unfold coal_sum. apply Rsum_perm, Permutation_map, P. Qed.
+Lemma walk_coal_sum F pk pt k g c (l : list ev) :
+  Rsum (map (fun iv => match i_end iv with Coal => F (i_b iv) | _ => 0 end) (walk pk pt k g c l))
+  = coal_sum F l.
+Proof.
+  revert pk pt k g c. induction l as [|e r IH]; intros; simpl; [reflexivity|].
+  unfold coal_sum in *; simpl. rewrite IH. reflexivity.
+Qed.
+
+Definition choose2R (k : Z) : R := IZR (k * (k - 1)) / 2.
+Lemma choose2_R k : choose2 NumR k = choose2R k.
+Proof. unfold choose2, choose2R. cbn [ofQ NumR]. unfold Q2R; simpl. reflexivity. Qed.
+
+(* the summand of the Kingman density on the interval (a,b), by counting *)
+Definition kterm (P : R -> R -> nat -> nat -> R) (evs : list ev) (a b : R) : R :=
+  if Rlt_dec a b then choose2R (kcount evs a) * P a b (gcount evs a) (ccount evs a) else 0.
+
+(* sorted_cumsum_is_counting: for ANY sorted permutation s of the events (any tie-breaking) the
+   running-count sum equals the sum over the inter-event intervals of the time sequence with the
+   lineage / grid / coalescent counts DEFINED BY COUNTING; empty intervals contribute 0. *)
+Theorem sorted_cumsum_is_counting_l P (evs s : list ev) :
+  keys_ok evs -> Permutation s evs -> StronglySorted tle s ->
+  ksum NumR (fun iv => P (i_a iv) (i_b iv) (i_g iv) (i_c iv)) (intervals s)
+  = isum (kterm P evs) (map etime s).
+Proof.
+  intros K Pm S. unfold ksum. rewrite nsum_Rsum.
+  assert (Ks : keys_ok s) by (eapply keys_ok_perm; [symmetry; exact Pm | exact K]).
+  pose proof (intervals_ok s Ks S) as OK.
+  rewrite (Rsum_map_ext_Forall _ (fun iv => kterm P evs (i_a iv) (i_b iv))).
+  - destruct s as [|e r]; [reflexivity|]. unfold intervals. rewrite walk_pair_sum. simpl.
+    unfold kterm at 1. destruct (Rlt_dec (etime e) (etime e)); lra.
+  - eapply Forall_impl; [|exact OK]. intros iv [Hle [Hz [Hc _]]]. unfold kterm.
+    cbn [zero mul NumR]. rewrite choose2_R.
+    destruct (i_zero iv) eqn:Z.
+    + destruct (Rlt_dec (i_a iv) (i_b iv)); [|reflexivity].
+      assert (i_a iv = i_b iv) by (apply Hz; reflexivity). lra.
+    + destruct (Rlt_dec (i_a iv) (i_b iv)) as [Hlt|Hn].
+      * destruct (Hc Hlt) as [-> [-> ->]]. unfold kcount, gcount, ccount.
+        rewrite (cntZ_perm _ _ _ _ _ Pm), !(cntN_perm _ _ _ _ _ Pm). reflexivity.
+      * assert (H : i_a iv = i_b iv) by lra. apply Hz in H. discriminate.
+Qed.
+
+(* the ln N terms: under no_tie the grid count at a coalescent event is the number of grid points
+   strictly before its time, for any tie-breaking *)
+Lemma csum_counting_l L (evs s : list ev) :
+  keys_ok evs -> no_tie evs -> Permutation s evs -> StronglySorted tle s ->
+  csum NumR (fun iv => L (i_b iv) (i_g iv)) (intervals s) = coal_sum (fun t => L t (glt evs t)) evs.
+Proof.
+  intros K NT Pm S. unfold csum. rewrite nsum_Rsum.
+  assert (Ks : keys_ok s) by (eapply keys_ok_perm; [symmetry; exact Pm | exact K]).
+  assert (NTs : no_tie s).
+  { intros c g Hc Hg. apply NT; eapply Permutation_in; eassumption. }
+  pose proof (intervals_ok s Ks S) as OK.
+  rewrite (Rsum_map_ext_Forall _ (fun iv => match i_end iv with Coal => L (i_b iv) (glt evs (i_b iv)) | _ => 0 end)).
+  - rewrite <- (coal_sum_perm _ _ _ Pm).
+    destruct s as [|e r]; [reflexivity|]. unfold intervals.
+    apply (walk_coal_sum (fun t => L t (glt evs t))).
+  - eapply Forall_impl; [|exact OK]. intros iv [_ [_ [_ [_ Hg]]]]. cbn [zero NumR].
+    destruct (i_end iv) eqn:E; try reflexivity.
+    rewrite (Hg NTs eq_refl). unfold glt. rewrite (cntN_perm _ _ _ _ _ Pm). reflexivity.
+Qed.
+
+(* ================================================================== Part 2: model = Kingman *)
+
+(* The Kingman log density written with counting only.  [ts] is the sequence of event times in
+   non-decreasing order (stated declaratively: any list that is sorted and a permutation of the
+   times), [P a b g c] the integral of 1/N over the inter-event interval (a,b) lying in grid piece g
+   / coalescent piece c, [lnN t] = ln N(t):
+       - sum_{intervals (a,b)} C(k(a),2) * int_a^b 1/N  -  sum_{coalescent times t} ln N(t). *)
+Definition kingman (P : R -> R -> nat -> nat -> R) (lnN : R -> R) (evs : list ev) (ts : list R) : R :=
+  - isum (kterm P evs) ts - coal_sum lnN evs.
+
+Lemma times_unique (evs : list ev) ts :
+  keys_ok evs -> StronglySorted Rle ts -> Permutation ts (map etime evs) ->
+  map etime (sort_ev evs) = ts.
+Proof.
+  intros K S Pm. apply sorted_perm_eq; auto.
+  - apply sorted_map_time, sort_sorted, K.
+  - rewrite Pm. apply Permutation_map, sort_perm.
+Qed.
+
+Lemma ksum_counting P (evs : list ev) ts :
+  keys_ok evs -> StronglySorted Rle ts -> Permutation ts (map etime evs) ->
+  ksum NumR (fun iv => P (i_a iv) (i_b iv) (i_g iv) (i_c iv)) (intervals (sort_ev evs))
+  = isum (kterm P evs) ts.
+Proof.
+  intros K S Pm. rewrite (sorted_cumsum_is_counting_l P evs (sort_ev evs) K (sort_perm evs) (sort_sorted evs K)).
+  rewrite (times_unique evs ts K S Pm). reflexivity.
+Qed.
+
+Lemma csum_times F (s : list ev) : csum NumR (fun iv => F (i_b iv)) (intervals s) = coal_sum F s.
+Proof.
+  unfold csum. rewrite nsum_Rsum. destruct s as [|e r]; [reflexivity|]. unfold intervals.
+  apply (walk_coal_sum F).
+Qed.
+
+Lemma lp_counting P L (evs : list ev) ts :
+  keys_ok evs -> no_tie evs -> StronglySorted Rle ts -> Permutation ts (map etime evs) ->
+  lp NumR (fun iv => P (i_a iv) (i_b iv) (i_g iv) (i_c iv)) (fun iv => L (i_b iv) (i_g iv))
+     (intervals (sort_ev evs))
+  = kingman P (fun t => L t (glt evs t)) evs ts.
+Proof.
+  intros K NT S Pm. unfold lp, kingman. cbn [sub opp NumR].
+  rewrite (ksum_counting P evs ts K S Pm).
+  rewrite (csum_counting_l L evs (sort_ev evs) K NT (sort_perm evs) (sort_sorted evs K)). reflexivity.
+Qed.
+
+Lemma lp_counting_nogrid P F (evs : list ev) ts :
+  keys_ok evs -> StronglySorted Rle ts -> Permutation ts (map etime evs) ->
+  lp NumR (fun iv => P (i_a iv) (i_b iv) (i_g iv) (i_c iv)) (fun iv => F (i_b iv)) (intervals (sort_ev evs))
+  = kingman P F evs ts.
+Proof.
+  intros K S Pm. unfold lp, kingman. cbn [sub opp NumR].
+  rewrite (ksum_counting P evs ts K S Pm), csum_times, (coal_sum_perm _ _ _ (sort_perm evs)). reflexivity.
+Qed.
+
+Lemma ofNat_INR n : ofNat NumR n = INR n.
+Proof. unfold ofNat; simpl. unfold Q2R; simpl. rewrite <- INR_IZR_INZ. lra. Qed.
+Lemma count_kind_sumN f (l : list ev) : count_kind f l = sumN f l.
+Proof. induction l; simpl; congruence. Qed.
+Lemma coal_sum_const x (l : list ev) : coal_sum (fun _ => x) l = INR (sumN iscoal l) * x.
+Proof.
+  unfold coal_sum. induction l as [|e r IH]; simpl; [lra|]. rewrite IH.
+  destruct (ekind e); cbn [iscoal]; rewrite ?plus_INR; simpl; lra.
+Qed.
+
+(* ---- constant ---- *)
+Theorem constant_eq_kingman_l theta (evs : list ev) ts :
+  keys_ok evs -> StronglySorted Rle ts -> Permutation ts (map etime evs) ->
+  constant_lp NumR theta evs = kingman (fun a b _ _ => (b - a) / theta) (fun _ => ln theta) evs ts.
+Proof.
+  intros K S Pm. unfold kingman.
+  rewrite <- (ksum_counting (fun a b _ _ => (b - a) / theta) evs ts K S Pm).
+  rewrite coal_sum_const, <- count_kind_sumN, <- ofNat_INR. reflexivity.
+Qed.
+
+(* ---- exponential growth, growth <> 0 ---- *)
+Theorem exponential_eq_kingman_l theta gq g (evs : list ev) ts :
+  Qeq_bool gq 0 = false ->
+  keys_ok evs -> StronglySorted Rle ts -> Permutation ts (map etime evs) ->
+  exponential_lp NumR theta gq g evs
+  = kingman (fun a b _ _ => (exp (b * g) - exp (a * g)) / (theta * g))
+            (fun t => ln (theta * exp (- t * g))) evs ts.
+Proof.
+  intros G K S Pm. unfold exponential_lp. rewrite G.
+  apply (lp_counting_nogrid (fun a b _ _ => (exp (b * g) - exp (a * g)) / (theta * g))
+           (fun t => ln (theta * exp (- t * g))) evs ts K S Pm).
+Qed.
+(* growth = 0: the constant model (the flat limit) *)
+Theorem exponential_flat_l theta gq g (evs : list ev) :
+  Qeq_bool gq 0 = true -> exponential_lp NumR theta gq g evs = constant_lp NumR theta evs.
+Proof.
+  intros G. unfold exponential_lp, constant_lp, lp. rewrite G. f_equal.
+  rewrite ofNat_INR, count_kind_sumN, <- (sumN_perm _ _ _ (sort_perm evs)).
+  exact (eq_trans (csum_times (fun _ => ln theta) (sort_ev evs)) (coal_sum_const (ln theta) (sort_ev evs))).
+Qed.
+
+(* ---- skyride: N = thetas_c on the c-th inter-coalescent piece; the j-th coalescence sees thetas_j ---- *)
+Theorem skyride_eq_kingman_l thetas (evs : list ev) ts :
+  keys_ok evs -> StronglySorted Rle ts -> Permutation ts (map etime evs) ->
+  skyride_lp NumR thetas evs
+  = - isum (kterm (fun a b _ c => (b - a) / lk thetas c 0) evs) ts - Rsum (map ln thetas).
+Proof.
+  intros K S Pm.
+  rewrite <- (ksum_counting (fun a b _ c => (b - a) / lk thetas c 0) evs ts K S Pm), <- nsum_Rsum.
+  reflexivity.
+Qed.
+
+(* ---- skygrid: N(t) = thetas_(number of grid points before t) ---- *)
+Theorem skygrid_eq_kingman_l thetas (evs : list ev) ts :
+  keys_ok evs -> no_tie evs -> StronglySorted Rle ts -> Permutation ts (map etime evs) ->
+  skygrid_lp NumR thetas evs
+  = kingman (fun a b g _ => (b - a) / lk thetas g 0) (fun t => ln (lk thetas (glt evs t) 0)) evs ts.
+Proof.
+  intros K NT S Pm. unfold skygrid_lp.
+  apply (lp_counting (fun a b g _ => (b - a) / lk thetas g 0) (fun t g => ln (lk thetas g 0)) evs ts K NT S Pm).
+Qed.
+
+(* ---- piecewise linear ---- *)
+Definition linN (th gridT : list R) (j : nat) (t : R) : R := lin_N NumR th gridT j t.
+Definition linP (thq : list Q) (th gridT : list R) (a b : R) (j : nat) : R :=
+  if lin_flat thq (length gridT) j then (b - a) / lk th j 0
+  else (b - a) * (ln (linN th gridT j b) - ln (linN th gridT j a)) / (linN th gridT j b - linN th gridT j a).
+Theorem linear_eq_kingman_l thq th gridT (evs : list ev) ts :
+  keys_ok evs -> no_tie evs -> StronglySorted Rle ts -> Permutation ts (map etime evs) ->
+  linear_lp NumR thq th gridT evs
+  = kingman (fun a b g _ => linP thq th gridT a b g) (fun t => ln (linN th gridT (glt evs t) t)) evs ts.
+Proof.
+  intros K NT S Pm. unfold linear_lp.
+  apply (lp_counting (fun a b g _ => linP thq th gridT a b g) (fun t g => ln (linN th gridT g t)) evs ts K NT S Pm).
+Qed.
+
+(* ---- piecewise exponential ---- *)
+Definition peLnN (theta : R) (growth gridT : list R) (j : nat) (t : R) : R :=
+  pe_lnN NumR (ln theta) growth gridT j t.
+Definition peP (theta : R) (gq : list Q) (growth gridT : list R) (a b : R) (j : nat) : R :=
+  let ng := exp (pe_lnNg NumR (ln theta) growth gridT j) in
+  if Qeq_bool (lk gq j 0%Q) 0 then (b - a) / ng
+  else (exp (lk growth j 0 * (b - g0 NumR gridT j)) - exp (lk growth j 0 * (a - g0 NumR gridT j)))
+       / (ng * lk growth j 0).
+Theorem pwexp_eq_kingman_l theta gq growth gridT (evs : list ev) ts :
+  keys_ok evs -> no_tie evs -> StronglySorted Rle ts -> Permutation ts (map etime evs) ->
+  pwexp_lp NumR theta gq growth gridT evs
+  = kingman (fun a b g _ => peP theta gq growth gridT a b g)
+            (fun t => peLnN theta growth gridT (glt evs t) t) evs ts.
+Proof.
+  intros K NT S Pm. unfold pwexp_lp.
+  apply (lp_counting (fun a b g _ => peP theta gq growth gridT a b g)
+           (fun t g => peLnN theta growth gridT g t) evs ts K NT S Pm).
+Qed.
+
+(* ---- order invariance: any permutation of the supplied events (hence of the supplied internal
+   heights, of the tips, of the grid) leaves every log_prob unchanged ---- *)
+Lemma kterm_perm P (evs evs' : list ev) : Permutation evs evs' -> kterm P evs = kterm P evs'.
+Proof.
+  intros Pm. unfold kterm. apply FunctionalExtensionality.functional_extensionality; intros a.
+  apply FunctionalExtensionality.functional_extensionality; intros b.
+  unfold kcount, gcount, ccount. rewrite (cntZ_perm _ _ _ _ _ Pm), !(cntN_perm _ _ _ _ _ Pm). reflexivity.
+Qed.
+Lemma ksum_perm P (evs evs' : list ev) :
+  keys_ok evs -> Permutation evs evs' ->
+  ksum NumR (fun iv => P (i_a iv) (i_b iv) (i_g iv) (i_c iv)) (intervals (sort_ev evs))
+  = ksum NumR (fun iv => P (i_a iv) (i_b iv) (i_g iv) (i_c iv)) (intervals (sort_ev evs')).
+Proof.
+  intros K Pm. assert (K' : keys_ok evs') by (eapply keys_ok_perm; eassumption).
+  set (ts := map etime (sort_ev evs)).
+  assert (S : StronglySorted Rle ts) by (apply sorted_map_time, sort_sorted, K).
+  assert (P1 : Permutation ts (map etime evs)) by (apply Permutation_map, sort_perm).
+  rewrite (ksum_counting P evs ts K S P1).
+  rewrite (ksum_counting P evs' ts K' S).
+  - rewrite (kterm_perm P evs evs' Pm). reflexivity.
+  - rewrite P1. apply Permutation_map, Pm.
+Qed.
+Lemma csum_perm L (evs evs' : list ev) :
+  keys_ok evs -> no_tie evs -> Permutation evs evs' ->
+  csum NumR (fun iv => L (i_b iv) (i_g iv)) (intervals (sort_ev evs))
+  = csum NumR (fun iv => L (i_b iv) (i_g iv)) (intervals (sort_ev evs')).
+Proof.
+  intros K NT Pm. assert (K' : keys_ok evs') by (eapply keys_ok_perm; eassumption).
+  assert (NT' : no_tie evs').
+  { intros c g Hc Hg. apply NT; eapply Permutation_in; try eassumption; symmetry; assumption. }
+  rewrite (csum_counting_l L evs (sort_ev evs) K NT (sort_perm evs) (sort_sorted evs K)).
+  rewrite (csum_counting_l L evs' (sort_ev evs') K' NT' (sort_perm evs') (sort_sorted evs' K')).
+  rewrite (coal_sum_perm _ _ _ Pm). unfold coal_sum. f_equal. apply map_ext. intros e.
+  unfold glt. rewrite (cntN_perm _ _ _ _ _ Pm). reflexivity.
+Qed.
+Lemma csum_perm_times F (evs evs' : list ev) :
+  Permutation evs evs' ->
+  csum NumR (fun iv => F (i_b iv)) (intervals (sort_ev evs)) = csum NumR (fun iv => F (i_b iv)) (intervals (sort_ev evs')).
+Proof.
+  intros Pm. rewrite !csum_times, !(coal_sum_perm _ _ _ (sort_perm _)). apply coal_sum_perm, Pm.
+Qed.
+Lemma lp_perm P L (evs evs' : list ev) :
+  keys_ok evs -> no_tie evs -> Permutation evs evs' ->
+  lp NumR (fun iv => P (i_a iv) (i_b iv) (i_g iv) (i_c iv)) (fun iv => L (i_b iv) (i_g iv)) (intervals (sort_ev evs))
+  = lp NumR (fun iv => P (i_a iv) (i_b iv) (i_g iv) (i_c iv)) (fun iv => L (i_b iv) (i_g iv)) (intervals (sort_ev evs')).
+Proof.
+  intros K NT Pm. unfold lp. rewrite (ksum_perm P evs evs' K Pm), (csum_perm L evs evs' K NT Pm). reflexivity.
+Qed.
+
+Theorem order_invariance_l (evs evs' : list ev) :
+  keys_ok evs -> Permutation evs evs' ->
+  (forall theta, constant_lp NumR theta evs = constant_lp NumR theta evs') /\
+  (forall theta gq g, exponential_lp NumR theta gq g evs = exponential_lp NumR theta gq g evs') /\
+  (forall thetas, skyride_lp NumR thetas evs = skyride_lp NumR thetas evs') /\
+  (no_tie evs ->
+   (forall thetas, skygrid_lp NumR thetas evs = skygrid_lp NumR thetas evs') /\
+   (forall thq th gridT, linear_lp NumR thq th gridT evs = linear_lp NumR thq th gridT evs') /\
+   (forall theta gq growth gridT, pwexp_lp NumR theta gq growth gridT evs = pwexp_lp NumR theta gq growth gridT evs')).
+Proof.
+  intros K Pm. assert (K' : keys_ok evs') by (eapply keys_ok_perm; eassumption).
+  split; [|split; [|split]].
+  - intros theta. unfold constant_lp. f_equal.
+    + f_equal. exact (ksum_perm (fun a b _ _ => (b - a) / theta) evs evs' K Pm).
+    + f_equal. f_equal. rewrite !count_kind_sumN. apply sumN_perm, Pm.
+  - intros theta gq g. unfold exponential_lp, lp.
+    destruct (Qeq_bool gq 0).
+    + f_equal.
+      * f_equal. exact (ksum_perm (fun a b _ _ => (b - a) / theta) evs evs' K Pm).
+      * apply (csum_perm_times (fun _ => ln theta) evs evs' Pm).
+    + f_equal.
+      * f_equal. exact (ksum_perm (fun a b _ _ => (exp (b * g) - exp (a * g)) / (theta * g)) evs evs' K Pm).
+      * apply (csum_perm_times (fun t => ln (theta * exp (- t * g))) evs evs' Pm).
+  - intros thetas. unfold skyride_lp. f_equal. f_equal.
+    exact (ksum_perm (fun a b _ c => (b - a) / lk thetas c 0) evs evs' K Pm).
+  - intros NT. split; [|split].
+    + intros thetas. unfold skygrid_lp.
+      apply (lp_perm (fun a b g _ => (b - a) / lk thetas g 0) (fun t g => ln (lk thetas g 0)) evs evs' K NT Pm).
+    + intros thq th gridT. unfold linear_lp.
+      apply (lp_perm (fun a b g _ => linP thq th gridT a b g) (fun t g => ln (linN th gridT g t)) evs evs' K NT Pm).
+    + intros theta gq growth gridT. unfold pwexp_lp.
+      apply (lp_perm (fun a b g _ => peP theta gq growth gridT a b g)
+               (fun t g => peLnN theta growth gridT g t) evs evs' K NT Pm).
+Qed.
